@@ -22,12 +22,7 @@ func main() {
 	thriftgo := fs.String("thriftgo", "", "path of the thriftgo binary built from -repo")
 	plug := fs.String("plugin", "", "path of the recording plugin binary")
 	fs.Parse(os.Args[2:])
-	_ = dir
-	_ = seed
-	_ = tier
-	_ = file
-	_ = thriftgo
-	_ = plug
+	tools := Tools{Thriftgo: *thriftgo, Plugin: *plug}
 	switch os.Args[1] {
 	case "extract":
 		sites, pkgs, std, err := inventory(*repo)
@@ -36,6 +31,10 @@ func main() {
 			os.Exit(1)
 		}
 		fmt.Print(renderLean(sites, pkgs, std))
+	case "run":
+		cmdRun(*dir, *seed, *tier, tools)
+	case "replay":
+		cmdReplay(*file, *dir, tools)
 	default:
 		fmt.Fprintln(os.Stderr, "unknown subcommand", os.Args[1])
 		os.Exit(2)
